@@ -22,7 +22,7 @@ func checkC02() *rtCheck {
 		Assume: []string{"zero value of a defaulted attribute may arrive as the zero value or as the default (goa represents defaulted attributes as non-pointer fields)",
 			"an optional empty string outside the body may arrive as empty or absent"},
 		Profiles: deliveryProfiles, Specs: [2]int{32, 500}, PerMethod: [2]int{24, 120},
-		MkCases: cases.Delivery, Judge: oracle.C02, Floor: [2]int{200, 5000}, Unions: true,
+		MkCases: cases.Delivery, Judge: oracle.C02, Floor: [2]int{200, 5000}, Unions: true, Multipart: true,
 		NonTrivial:  func(ex *rt.Exchange) bool { return ex.StubIn != nil && !ex.Case.NoPay },
 		StreamSpecs: [2]int{4, 48}, StreamPerMethod: [2]int{16, 64},
 	}
@@ -35,7 +35,7 @@ func checkC03() *rtCheck {
 		Assume: []string{"zero value of a defaulted attribute may arrive as the zero value or as the default",
 			"results that are result types with views are judged by C08, C03 only checks their status"},
 		Profiles: deliveryProfiles, Specs: [2]int{32, 500}, PerMethod: [2]int{24, 120},
-		MkCases: cases.Delivery, Judge: oracle.C03, Floor: [2]int{200, 5000}, Unions: true,
+		MkCases: cases.Delivery, Judge: oracle.C03, Floor: [2]int{200, 5000}, Unions: true, Multipart: true,
 		NonTrivial:  func(ex *rt.Exchange) bool { return ex.ClientOut != nil && ex.ClientOut.Err == nil },
 		StreamSpecs: [2]int{4, 48}, StreamPerMethod: [2]int{16, 64},
 	}
@@ -51,7 +51,7 @@ func checkC04() *rtCheck {
 			"no malformed host names are generated (hostname validator is a listed C17 finding)",
 			"alternative spellings of valid scalars in text locations are not generated"},
 		Profiles: validationProfiles, Specs: [2]int{32, 500}, PerMethod: [2]int{36, 160},
-		MkCases: cases.Validation, Judge: oracle.C04, Floor: [2]int{300, 8000}, Unions: true,
+		MkCases: cases.Validation, Judge: oracle.C04, Floor: [2]int{300, 8000}, Unions: true, Multipart: true,
 	}
 }
 
@@ -170,7 +170,7 @@ func checkC14() *rtCheck {
 			}
 			return cs
 		},
-		Judge: oracle.C14, Floor: [2]int{300, 8000}, Unions: true,
+		Judge: oracle.C14, Floor: [2]int{300, 8000}, Unions: true, Multipart: true, MultipartFew: true,
 		NonTrivial: func(ex *rt.Exchange) bool { return ex.WireResp != nil },
 	}
 }
